@@ -766,6 +766,19 @@ def target_probes(rec):
         return t, dut
 
     sw = lambda: hs.LogSweep(1, 10, 1)
+
+    def _displaced(t):
+        old_sig = t.a
+        t.zz = h.Signal()
+        gone = t.zz
+        t.zz = h.R(r=1 * K)(p=t.a, n=t.VSS)  # (the name now belongs to an instance; the signal is nobody's)
+        return gone
+
+    def _loose():
+        i = h.Vdc(dc=1)()
+        i.name = "vloose"
+        return i
+
     probes = {
         "save-unnamed-signal": lambda t, d: hs.Save(h.Signal()),
         "save-list-with-unnamed-signal": lambda t, d: hs.Save([t.a, h.Signal()]),
@@ -779,6 +792,22 @@ def target_probes(rec):
         "noise-pair-with-bundle": lambda t, d: hs.Noise(output=(t.b, t.a), input_source=t.v, sweep=sw()),
         "noise-pair-with-unnamed-signal": lambda t, d: hs.Noise(output=(t.a, h.Signal()), input_source=t.v, sweep=sw()),
         "noise-unnamed-source": lambda t, d: hs.Noise(output=t.a, input_source=h.Vdc(dc=1)(), sweep=sw()),
+        # named, but of no Module at all / of a Bundle definition / of a Primitive / displaced from the testbench
+        "save-named-signal-of-no-module": lambda t, d: hs.Save(h.Signal(name="foo")),
+        "save-list-with-named-signal-of-no-module": lambda t, d: hs.Save([t.a, h.Signal(name="a2")]),
+        "save-member-of-bundle-definition": lambda t, d: hs.Save(h.Diff.p),
+        "save-port-of-primitive": lambda t, d: hs.Save(h.R.port_list[0]),
+        "save-displaced-signal": lambda t, d: hs.Save(_displaced(t)),
+        "noise-named-signal-of-no-module": lambda t, d: hs.Noise(output=h.Signal(name="zz"), input_source=t.v, sweep=sw()),
+        "noise-source-of-dut": lambda t, d: hs.Noise(output=t.a, input_source=d.r, sweep=sw()),
+        "noise-source-named-but-never-added": lambda t, d: hs.Noise(output=t.a, input_source=_loose(), sweep=sw()),
+        # empty names
+        "save-empty-name": lambda t, d: hs.Save(""),
+        "save-empty-list": lambda t, d: hs.Save([]),
+        "save-list-with-empty-name": lambda t, d: hs.Save(["a", ""]),
+        "noise-empty-output-name": lambda t, d: hs.Noise(output="", input_source=t.v, sweep=sw()),
+        "noise-pair-with-empty-name": lambda t, d: hs.Noise(output=(t.a, ""), input_source=t.v, sweep=sw()),
+        "noise-empty-source-name": lambda t, d: hs.Noise(output=t.a, input_source="", sweep=sw()),
         # controls: the same forms with members of the testbench are exported
         "ok-save-signal": lambda t, d: hs.Save(t.a),
         "ok-save-port": lambda t, d: hs.Save(t.VSS),
